@@ -19,7 +19,8 @@ Record bobs := {
   bo_counts : list (nat * nat);          (* HandlerCount per type once everything has quiesced *)
   bo_store : list (nat * nat);           (* (type, value) of every stored record, in log order *)
   bo_unfinished : list nat;              (* program threads still blocked at the end *)
-  bo_closed : nat                        (* store.Close calls *)
+  bo_closed : nat;                       (* store.Close calls *)
+  bo_cut : bool                          (* the controller stopped at its step cap: the run is unfinished, not blocked *)
 }.
 
 Definition program_of (i : binput) : program :=
